@@ -52,9 +52,40 @@ add("C14", "restart-sim", "exploration",
     "Trusted: the twin run as reference; undetermined zero-time-constant states are excluded from comparisons; dill snapshots are costly here so "
     "the quick tier holds at most one per plan.", "DESIGN.md section 4, C14")
 
+add("C15", "tds-sim", "exploration",
+    "deterministic simulation: recorder ground truth of accepted steps vs memory / npz / lst / loader / csv / csv replay under seeded selection, thinning, off-loading, resume and injected write errors",
+    "The simulator copies (t, x, y) of every accepted attempt; the in-memory series, the npz rows (across off-load chunks and resumed segments), "
+    "the lst labels (against the owner of each slot), the TDSData loader, name/regex queries, the csv export and a csv replay in a fresh System "
+    "must reproduce exactly those numbers in exactly the reference selection and thinning; ENOSPC/EIO injected on the k-th npz write must "
+    "propagate or fail the run. Seeded over stock cases, Output shapes, save_every, limit_store/max_store and segments.",
+    "Trusted: StepTap copies as ground truth; slot ownership read from the variables' address arrays (C10 checks those); z (limiter flag) columns "
+    "are only checked for count, not value.", "DESIGN.md section 4, C15")
+
+add("C16", "solver-sim", "exploration",
+    "deterministic simulation: seeded matrix-sequence histories on one solver instance vs dense reference in sacrificial workers; stale-factor fault and cross-option twins in real runs; fresh-interpreter repetition",
+    "Per back-end (KLU, UMFPACK, SuperLU) seeded histories of same-pattern / new-pattern / new-size / singular / regular-again matrices through "
+    "solve() and linsolve(), with and without refresh requests, are judged by numpy.linalg (||Ax-b|| <= 1e-9||b||; singular => NaN/exception and "
+    "recovery); a worker death by signal is an observation. In real runs an injected stale symbolic factor must leave the trajectory "
+    "bit-identical; the same disturbed plan under different sparselib/linsolve/ipadd/PF-method must agree (PF 1e-9, trajectory/eigenvalues 1e-6 "
+    "or a step-halving bound when discrete switching differs); the Jacobian pattern must be constant; two fresh interpreters with different "
+    "hash seeds must give identical bytes.",
+    "Trusted: numpy.linalg as dense reference; numba JIT on/off is not exercised in the quick tier.", "DESIGN.md section 4, C16")
+
+add("C17", "tds-sim", "fault_enumeration",
+    "fault enumeration: fixed catalogue of constructed / injected failures (class x case x position) run completely, plus seeded combinations; flags, exit codes, dependants and stored state checked",
+    "A fixed catalogue (overload, NaN at iteration k, iteration limit, no slack, zero impedance, solver NaN / persistent rejection / shrinkt=0 at "
+    "attempt k, criterion trip, corrupted PF hand-over, dependants after a failed PF, missing / unknown / truncated input per format, fail-repair-"
+    "retry) is executed completely on every run and extended by seeded combinations over the stock cases. Failure must give False, non-zero exit "
+    "code, refusing dependants, no NaN rows or solution; each reported success is re-examined (residual at the reported solution, end time, "
+    "criterion).",
+    "Trusted: PF success is re-examined with the routine's own residual evaluation; for corrupt input an exception that would end the CLI with "
+    "non-zero status counts as reported. Undetectable corruption (a still-valid file) is not demanded.", "DESIGN.md section 4, C17")
+
 ENGINES = [
     {"name": "tds-sim", "path": "dst/tdssim.py", "kind_free_text": "real TDS loop under StepTap/SolverTap/TimerTap/StoreTap/ConnTap "
      "seams with seeded plans (events, segments, restarts, solver/disk/clock faults, crash points)", "serves_properties": []},
+    {"name": "solver-sim", "path": "dst/props/c16.py", "kind_free_text": "matrix-sequence histories on one Solver instance per back-end in "
+     "sacrificial worker processes, dense numpy reference; cross-option twins and stale-factor faults on tds-sim", "serves_properties": []},
     {"name": "restart-sim", "path": "dst/props/c14.py", "kind_free_text": "tds-sim plus interruption machinery: resume, dill snapshots in streams/"
      "files, crash injection with restart from durable bytes only, torn snapshots, reference twin", "serves_properties": []},
 ]
